@@ -41,7 +41,7 @@ fn flip_positions(len: usize, full_limit: usize, edge: usize, seed: u64) -> Vec<
     let mut v: Vec<usize> = (0..edge * 8).collect();
     v.extend((len - edge) * 8..len * 8);
     let mid_bytes = len - 2 * edge;
-    let r = crate::rng::det_bytes(seed, 0xf11b, 256 * 4);
+    let r = crate::rng::det_bytes(seed, 0xf11b, if mid_bytes == 0 { 0 } else { 256 * 4 });
     for ch in r.chunks(4) {
         let x = u32::from_le_bytes(ch.try_into().unwrap()) as usize;
         v.push((edge + x % mid_bytes) * 8 + (x >> 20) % 8);
